@@ -55,6 +55,10 @@ def main():
         qr = fn(env, **kw)
         res.update(qr.as_dict())
         res["mir"] = info
+        from mirsym import seqeq as _SE
+        res["second_solver"] = {"solver": "cvc5 1.0.3", "queries_rechecked": _SE.CROSS["done"], "agree": _SE.CROSS["agree"], "inconclusive": _SE.CROSS["inconclusive"], "disagree": _SE.CROSS["disagree"]}
+        if _SE.CROSS["disagree"]:
+            res["undecided"] = list(res.get("undecided", [])) + ["second solver disagrees: " + "; ".join(_SE.CROSS["disagree"][:3])]
     except Unsupported as e:
         res.update({"violations": [], "undecided": [f"unsupported: {e}"], "queries": 0, "paths": 0, "solver_s": 0})
     except Exception as e:
